@@ -1,5 +1,6 @@
 """C08 — accounting-record files (utmp/wtmp/btmp, lastlog, acct/pacct of every platform
-layout): every non-null record once, in time order, equal times in file order.
+layout): every non-null record once, in time order, equal times in file order; each printed
+line shows that record's own field values and nothing else.
 
 A. Coq: Props/C08.v — the reader keyed by (time value, file offset) = stable sort by time of the
    non-null in-window records for ALL inputs; the reader keyed by the time value alone is
@@ -8,6 +9,12 @@ A. Coq: Props/C08.v — the reader keyed by (time value, file offset) = stable s
 B. FixedStructReader in-process (harness c08: the loop of exec_fixedstructprocessor) vs the
    Coq MODEL records_out_K2 on the same time-value lists; on small files additionally through
    the regenerated layout row (decode_tv on the file bytes).
+   FixedStruct::as_bytes vs Model.RecordRender (cursor model, declarative text, parse_items) on
+   the records of the case files and on boundary / random entries of every layout;
+   FixedStruct::score_fixedstruct vs Model.LayoutDetect.score_entry on those entries, on
+   misaligned readings and on all-0x00 / all-0xFF entries; FixedStructReader::new (chosen layout
+   and high score, repeated) and score_file per candidate vs Model.LayoutDetect.score_file in
+   the code's candidate order.
 C. the real s4 binary on synthesised files vs the Coq SPEC (stable sort of the non-null
    in-window records) — order, count, and every printed line must show its own record's
    field values.  Files are synthesised from the FROZEN reference layouts.
@@ -133,6 +140,16 @@ def boundary_cases(rng, lays):
             cases.append(dict(layout=name, ordering="strings_" + strmode, recs=recs, lo=lo, hi=hi, window=w, strmode=strmode,
                               bs_bin=rng.choice([64, 300, 65536]), bs_proc=rng.choice([7, 64, 4096]), container=conts[k % 3]))
             k += 1
+        # (1b) values outside plain ASCII strings: sockaddr bytes (NetBSD i386 layouts), UTF-8 names
+        exts = ["utf8"] if any(f["kind"] == "c" and ("user" in f["label"] or "name" in f["label"] or "host" in f["label"]) for f in lay["fields"]) else []
+        if any(f["kind"] == "b" for f in lay["fields"]):
+            exts += ["ss", "ss", "ss10"]
+        for ext in exts:
+            n = rng.choice([3, 4, 6])
+            recs = [(t, None) for t in times(n)]
+            cases.append(dict(layout=name, ordering="values_" + ext, recs=recs, lo=None, hi=None, window="none", strmode="normal+" + ext,
+                              bs_bin=rng.choice([64, 65536]), bs_proc=rng.choice([64, 4096]), container=conts[k % 3]))
+            k += 1
         # (2) invalid entries
         for where in ("start", "middle", "end", "start_middle_end", "two_consecutive_start", "all_but_one", "with_nulls"):
             n = rng.choice([5, 6, 7, 9, 11])
@@ -199,7 +216,10 @@ HDR = (vlib.COQ_PRINT_HDR + "From Coq Require Import String List NArith ZArith.\
 
 
 CASE_TYPES = {"model_bad": "list case08", "spec_bad": "list case08",
-              "bytes_bad": "list (string * string * option tv * option tv * list N * list N)"}
+              "bytes_bad": "list (string * string * option tv * option tv * list N * list N)",
+              "render_bad": "list (string * string * string)",
+              "score_bad": "list (string * Z * string * option Z)",
+              "detect_bad": "list (N * list string * list (option Z) * string * Z)"}
 
 
 def coq_eval(ctx, subdir, fn, rows_by_index, what):
@@ -207,7 +227,7 @@ def coq_eval(ctx, subdir, fn, rows_by_index, what):
     disagreeing cases, or None when the evaluation itself failed."""
     if not rows_by_index:
         return {}
-    shards = vlib.shard(rows_by_index, vlib.NCPU)
+    shards = vlib.shard(rows_by_index, max(1, min(vlib.NCPU, len(rows_by_index) // 40)))
     texts = []
     for sh_ in shards:
         texts.append(HDR + "Definition cases : %s := [\n%s\n].\nEval vm_compute in (%s cases).\n" % (CASE_TYPES[fn], ";\n".join(r for _, r in sh_), fn))
@@ -221,6 +241,225 @@ def coq_eval(ctx, subdir, fn, rows_by_index, what):
         for k, code in pairs:
             bad[sh_[k][0]] = code
     return bad
+
+
+# ----------------------------------------------------------------------------- rendering / scoring / detection ties
+def gen_tables():
+    return json.load(open(os.path.join(vlib.COQ, "Gen", "fixedstruct_tables.json")))
+
+
+def f32_int_bytes(rng):
+    import struct
+    return struct.pack("<f", float(rng.choice([0, 1, 2, 7, 100, 65535, 1 << 20, (1 << 24) - 1, rng.randrange(0, 1 << 24)])))
+
+
+def fix_f32(tab, name, e, rng):
+    """the model renders only integer-valued f32 below 2^24 (format!("{}") of anything else is
+    outside the modelled class): give such fields a value of the class"""
+    b = bytearray(e)
+    for it in tab["render"][name]:
+        if it[0] == "f32":
+            b[it[1]:it[1] + 4] = f32_int_bytes(rng)
+    return bytes(b)
+
+
+SPECIAL_BYTES = [0x27, 0x20, 0x0A, 0x7C, 0x29, 0x28, 0x2E, 0x2D, 0x30, 0x31, 0x7F, 0x80, 0xC3, 0xBC, 0xFE, 0xFF, 0x01, 0x09]
+
+
+def random_entries(rng, tab, name, size, base_records, n):
+    """entries of `size` bytes for the render / score ties: a written record with some fields
+    overwritten by boundary values, sparse random bytes, dense random bytes, one-field-only entries"""
+    fields = tab["structs"][name]["fields"]
+    out = []
+    for k in range(n):
+        mode = k % 6
+        if mode == 0 and base_records:
+            e = bytearray(rng.choice(base_records))
+            for _ in range(rng.randrange(1, 4)):
+                p, (kind, off, sz) = rng.choice(sorted(fields.items()))
+                if kind in ("c", "b"):
+                    fill = rng.randrange(0, sz + 1)
+                    alpha = rng.choice([SPECIAL_BYTES, list(range(0x20, 0x7F)), list(range(1, 256))])
+                    e[off:off + sz] = bytes(rng.choice(alpha) for _ in range(fill)) + b"\0" * (sz - fill)
+                else:
+                    e[off:off + sz] = rng.choice([b"\0" * sz, b"\xff" * sz, b"\x80" + b"\0" * (sz - 1), b"\0" * (sz - 1) + b"\x80",
+                                                  b"\xff" * (sz - 1) + b"\x7f", bytes(rng.randrange(256) for _ in range(sz))])
+        elif mode == 1:
+            e = bytearray(size)
+            for _ in range(rng.randrange(1, 12)):
+                e[rng.randrange(size)] = rng.choice(SPECIAL_BYTES + [rng.randrange(256)])
+        elif mode == 2:
+            e = bytearray(rng.randrange(256) if rng.random() < 0.7 else 0 for _ in range(size))
+        elif mode == 3:       # every string full of printable bytes (no NUL inside the arrays), the rest zero
+            e = bytearray(size)
+            for p, (kind, off, sz) in fields.items():
+                if kind in ("c", "b") and rng.random() < 0.7:
+                    e[off:off + sz] = bytes(rng.randrange(0x21, 0x7F) for _ in range(sz))
+        elif mode == 4:       # one field only
+            e = bytearray(size)
+            p, (kind, off, sz) = rng.choice(sorted(fields.items()))
+            e[off:off + sz] = bytes(rng.randrange(1, 256) for _ in range(sz))
+        else:                 # a plausible time and flags, random printable strings with a terminator
+            e = bytearray(rng.choice(base_records)) if base_records else bytearray(size)
+            for p, (kind, off, sz) in fields.items():
+                if kind == "c" and sz > 1:
+                    fill = rng.randrange(0, sz)
+                    e[off:off + sz] = bytes(rng.randrange(0x20, 0x7F) for _ in range(fill)) + b"\0" * (sz - fill)
+        if not any(e):
+            e[rng.randrange(size)] = 1
+        out.append(fix_f32(tab, name, bytes(e), rng))
+    return out
+
+
+def tie_render(ctx, tab, entries, stats, binary_triples=(), cases=()):
+    """B: FixedStruct::new + as_bytes in-process vs Model.RecordRender.as_bytes on the same bytes;
+    binary_triples: (layout, entry bytes, record text the s4 BINARY printed, case index) compared
+    with the same Coq function"""
+    lines = ["%s\t%s" % (n, e.hex()) for n, e in entries]
+    outl, err = vlib.harness("c08", lines, timeout=600, args=["render"])
+    if outl is None or len(outl) != len(lines):
+        ctx.obligation_broken("correspondence", "harness c08 render run", err)
+        return
+    rows = []
+    for i, ((n, e), o) in enumerate(zip(entries, outl)):
+        tok = o.split(" ")
+        if tok[0] == "R":
+            rows.append((i, '("%s", "%s", "%s")' % (n, e.hex(), tok[1])))
+        elif tok[0] == "NONE":
+            stats["render_rejected_entries"] += 1        # all-0x00 / all-0xFF / time not convertible
+        else:
+            stats["render_mismatch_model"] += 1
+            if stats["render_mismatch_model"] == 1:
+                ctx.obligation_broken("correspondence", "FixedStruct::as_bytes (in-process) returned Fail/panicked within the print buffer",
+                                      json.dumps(dict(layout=n, entry=e.hex(), harness_line=o[:300])))
+    stats["render_cases"] = len(rows)
+    nb = len(entries)
+    rows += [(nb + j, '("%s", "%s", "%s")' % (n, e.hex(), t.hex())) for j, (n, e, t, i) in enumerate(binary_triples)]
+    bad = coq_eval(ctx, "render", "render_bad", rows, "correspondence")
+    bad2 = {k - nb: c for k, c in (bad or {}).items() if k >= nb}
+    bad = {k: c for k, c in (bad or {}).items() if k < nb}
+    stats["binary_lines_mismatch_model"] = len(bad2)
+    if bad2:
+        j = sorted(bad2)[0]
+        n, e, t, i = binary_triples[j]
+        ctx.obligation_broken("correspondence", "record text printed by the s4 binary vs Model.RecordRender.render of the record's bytes",
+                              json.dumps(dict(case=case_public(cases[i]), entry=e.hex(), printed=t.decode("latin-1")[:600], code=bad2[j], disagreements=len(bad2))))
+    if bad:
+        stats["render_mismatch_model"] += len(bad)
+        i = sorted(bad)[0]
+        n, e = entries[i]
+        ctx.obligation_broken("correspondence", "FixedStruct::as_bytes (in-process) vs Model.RecordRender.as_bytes / render / parse_items",
+                              json.dumps(dict(layout=n, entry=e.hex(), code=bad[i], implementation=outl[i][:900], disagreements=len(bad),
+                                              codes="1 sequential model differs, 2 model buffer full, 3 declarative text differs, 4 parse of a clean line")))
+
+
+def tie_score(ctx, tab, entries, stats):
+    """B: buffer_to_fixedstructptr + FixedStruct::score_fixedstruct in-process vs Model.LayoutDetect.score_entry"""
+    lines = ["%s\t%d\t%s" % (n, b, e.hex()) for n, b, e in entries]
+    outl, err = vlib.harness("c08", lines, timeout=600, args=["score"])
+    if outl is None or len(outl) != len(lines):
+        ctx.obligation_broken("correspondence", "harness c08 score run", err)
+        return
+    rows = []
+    for i, ((n, b, e), o) in enumerate(zip(entries, outl)):
+        tok = o.split(" ")
+        if tok[0] == "S":
+            rows.append((i, '("%s", (%d)%%Z, "%s", Some (%d)%%Z)' % (n, b, e.hex(), int(tok[1]))))
+        elif tok[0] == "NONE":
+            rows.append((i, '("%s", (%d)%%Z, "%s", None)' % (n, b, e.hex())))
+        else:
+            ctx.obligation_broken("correspondence", "score_fixedstruct (in-process) panicked", json.dumps(dict(layout=n, entry=e.hex(), line=o[:200])))
+    stats["score_cases"] = len(rows)
+    bad = coq_eval(ctx, "score", "score_bad", rows, "correspondence")
+    if bad:
+        over = [i for i, c in bad.items() if c == 5]
+        real = sorted(i for i, c in bad.items() if c != 5)
+        stats["score_overread_not_compared"] = len(over)
+        stats["score_mismatch_model"] = len(real)
+        if real:
+            i = real[0]
+            n, b, e = entries[i]
+            ctx.obligation_broken("correspondence", "FixedStruct::score_fixedstruct (in-process) vs Model.LayoutDetect.score_entry",
+                                  json.dumps(dict(layout=n, bonus=b, entry=e.hex(), code=bad[i], implementation=outl[i], disagreements=len(real))))
+
+
+def candidates(tab, lays, kind, filesz):
+    """the candidate list of filesz_to_types in the order of the regenerated try-all list (the
+    order Model.LayoutDetect.filesz_candidates uses)"""
+    kidx = U.KINDS.index(kind)
+    sizes = {l["name"]: l["size"] for l in tab["layouts"]}
+    bon = set((k, t) for k, t in tab["bonus"])
+    return [(t, tab["score_bonus"] if (kidx, t) in bon else 0) for t in tab["try_all"] if filesz and filesz % sizes[t] == 0]
+
+
+def cq_chunks(data):
+    h = data.hex()
+    return "[%s]" % "; ".join('"%s"' % h[i:i + 4096] for i in range(0, len(h), 4096))
+
+
+def tie_detect(ctx, tab, lays, files, stats, repeat=3):
+    """B: layout detection.  files: list of (path, kind, bytes, blocksz, label).  Per candidate the
+    implementation's high score (FixedStructReader::score_file with that one candidate), the layout
+    and score FixedStructReader::new settles on (run `repeat` times) vs Model.LayoutDetect."""
+    lines, cl = [], []
+    for path, kind, data, bs, label in files:
+        cands = candidates(tab, lays, kind, len(data))
+        cl.append(cands)
+        lines.append("%s\t%d\t%d\t%s\t%d" % (path, U.KINDS.index(kind), bs, ",".join("%s:%d" % c for c in cands), repeat))
+    outl, err = vlib.harness("c08", lines, timeout=900, args=["detect"])
+    if outl is None or len(outl) != len(lines):
+        ctx.obligation_broken("correspondence", "harness c08 detect run", err)
+        return {}
+    rows, chosen_all = [], {}
+    for i, ((path, kind, data, bs, label), cands, o) in enumerate(zip(files, cl, outl)):
+        m = re.fullmatch(r"D ?([^|]*) \|(.*)", o)
+        if not m:
+            ctx.obligation_broken("correspondence", "harness c08 detect output", json.dumps(dict(file=label, line=o[:300])))
+            continue
+        per = [x.split("=") for x in m.group(1).split(",") if x]
+        runs = m.group(2).split()
+        chosen_all[i] = runs
+        if [p[0] for p in per] != [c[0] for c in cands] or not runs:
+            ctx.obligation_broken("correspondence", "harness c08 detect output (candidates)", json.dumps(dict(file=label, line=o[:300])))
+            continue
+        sc = []
+        okp = True
+        for _, v in per:
+            if v == "-":
+                sc.append("None")
+            elif re.fullmatch(r"-?\d+/\d+", v):
+                sc.append("Some (%s)%%Z" % v.split("/")[0])
+            else:
+                okp = False
+        if not okp:
+            ctx.obligation_broken("correspondence", "score_file (one candidate) failed", json.dumps(dict(file=label, line=o[:300])))
+            continue
+        # each run of FixedStructReader::new is compared
+        for r_ in sorted(set(runs)):
+            nm, _, hs = r_.partition(":")
+            if not nm.startswith("Fs_"):
+                nm, hs = "", "0"
+            rows.append(((i, r_), '(%d%%N, %s, [%s], "%s", (%s)%%Z)' % (U.KINDS.index(kind), cq_chunks(data), "; ".join(sc), nm, hs)))
+    stats["detect_cases"] = len(files)
+    stats["detect_runs_compared"] = len(rows)
+    bad = coq_eval(ctx, "detect", "detect_bad", rows, "correspondence") or {}
+    ties = {k: c for k, c in bad.items() if c >= 10}
+    bad = {k: c for k, c in bad.items() if c < 10}
+    tie_files = sorted(set(k[0] for k in ties))
+    stats["detect_tie_files"] = len(tie_files)
+    stats["detect_tie_files_with_both_layouts_chosen"] = sum(1 for i in tie_files if len(set(x.split(":")[0] for x in chosen_all.get(i, []))) > 1)
+    if bad:
+        over = [k for k, c in bad.items() if c == 0]
+        real = sorted(k for k, c in bad.items() if c != 0)
+        stats["detect_overread_not_compared"] = len(set(k[0] for k in over))
+        stats["detect_mismatch_model"] = len(real)
+        if real:
+            i, r_ = real[0]
+            ctx.obligation_broken("correspondence", "FixedStructReader::new / score_file (in-process) vs Model.LayoutDetect.score_file",
+                                  json.dumps(dict(file=files[i][4], kind=files[i][1], size=len(files[i][2]), code=bad[real[0]], harness_line=outl[i][:600],
+                                                  codes="1 candidate sets differ, 2 a candidate's high score differs, 3 unique maximum but other choice, 4 tie and choice not among the tied",
+                                                  disagreements=len(real))))
+    return dict(ties=tie_files, chosen=chosen_all)
 
 
 # ----------------------------------------------------------------------------- runs
@@ -323,6 +562,47 @@ def utmpx_read_as_freebsd(lays_ref, c):
     return any(o["size"] != lay["size"] and fsz % o["size"] == 0 for o in lays_ref.values())
 
 
+def ss_field_with_newline(lays_ref, c):
+    """class of the recorded rendering finding: a NetBSD i386 utmpx / lastlogx record whose sockaddr
+    field (ut_ss / ll_ss, written raw up to its first NUL) holds a newline byte"""
+    lay = lays_ref[c["layout"]]
+    if not any(f["kind"] == "b" for f in lay["fields"]):
+        return False
+    return any("\n" in v for i in range(len(c["recs"])) for lab, v in U.field_values(lay, i, c.get("strmode")).items()
+               if isinstance(v, str) and any(f["label"] == lab and f["kind"] == "b" for f in lay["fields"]))
+
+
+def high_byte_in_c_char_field(lays_ref, c):
+    """(evidence only) a printed c_char string field holds a byte >= 0x80: the class of the defect
+    repaired by commit b0611f28 (such bytes were printed as NUL)"""
+    lay = lays_ref[c["layout"]]
+    return any(any(ord(ch) > 0x7F for ch in v) for i, (t, nk) in enumerate(c["recs"]) if nk is None
+               for lab, v in U.field_values(lay, i, c.get("strmode")).items()
+               if isinstance(v, str) and any(f["label"] == lab and f["kind"] == "c" for f in lay["fields"]))
+
+
+def layout_score_tie(lays_ref, c):
+    """class of the recorded detection finding: two candidate layouts of filesz_to_types reach the
+    same maximal high score on this file (decided with the implementation's own scoring, one
+    candidate at a time: FixedStructReader::score_file through the harness)"""
+    try:
+        tab = gen_tables()
+        data = open(c["plain_path"], "rb").read()
+        kind = lays_ref[c["layout"]]["kind"]
+        cands = candidates(tab, lays_ref, kind, len(data))
+        if len(cands) < 2:
+            return False
+        line = "%s\t%d\t%d\t%s\t0" % (c["plain_path"], U.KINDS.index(kind), 65536, ",".join("%s:%d" % x for x in cands))
+        outl, _ = vlib.harness("c08", [line], timeout=120, args=["detect"])
+        m = re.fullmatch(r"D ?([^|]*) \|(.*)", outl[0]) if outl else None
+        if not m:
+            return False
+        sc = [int(x.split("=")[1].split("/")[0]) for x in m.group(1).split(",") if re.fullmatch(r"\w+=-?\d+/\d+", x)]
+        return bool(sc) and max(sc) > 0 and sc.count(max(sc)) >= 2
+    except Exception:
+        return False
+
+
 def detection_symptom(c, err, nlines):
     """the s4 binary itself (--summary) reports another layout than the one the file was written in,
     or reports none and prints nothing (FixedStructReader::new failed)"""
@@ -348,6 +628,114 @@ def nontrivial(c):
     nulls = any(nk is not None for _, nk in c["recs"])
     onbound = (c["lo"] is not None and tuple(c["lo"]) in ts) or (c["hi"] is not None and tuple(c["hi"]) in ts)
     return tie or unordered or nulls or onbound
+
+
+def new_ties(ctx, lays_ref, cases, stats, binary_triples=()):
+    """the three ties of the rendering / detection models (B)"""
+    quick = ctx.quick()
+    rng = ctx.rng
+    try:
+        tab = gen_tables()
+    except Exception as e:
+        ctx.obligation_broken("translator", "fixedstruct_tables.json unreadable (render / score tables)", repr(e))
+        return
+    stats.update(render_rejected_entries=0, render_mismatch_model=0, render_cases=0, score_cases=0, score_overread_not_compared=0,
+                 score_mismatch_model=0, detect_cases=0, detect_runs_compared=0, detect_tie_files=0, detect_overread_not_compared=0,
+                 detect_mismatch_model=0, detect_tie_files_with_both_layouts_chosen=0)
+    # entries: the records of the small case files + per layout boundary / random entries
+    per_layout = {n: [] for n in lays_ref}
+    for c in cases:
+        lay = lays_ref[c["layout"]]
+        if len(c["recs"]) > (12 if quick else 40) or len(per_layout[c["layout"]]) > (30 if quick else 600):
+            continue
+        data = open(c["plain_path"], "rb").read()
+        for k, (t, nk) in enumerate(c["recs"]):
+            if nk is None:
+                per_layout[c["layout"]].append(data[k * lay["size"]:(k + 1) * lay["size"]])
+    rentries, sentries = [], []
+    for n, lay in lays_ref.items():
+        rng.shuffle(per_layout[n])
+        base = per_layout[n][:(16 if quick else 400)]
+        rnd = random_entries(rng, tab, n, lay["size"], base[:8], 18 if quick else 300)
+        for e in base:
+            rentries.append((n, fix_f32(tab, n, e, rng)))
+            sentries.append((n, rng.choice([0, tab["score_bonus"]]), e))
+        for e in rnd:
+            rentries.append((n, e))
+            sentries.append((n, rng.choice([0, tab["score_bonus"], -3]), e))
+        sentries.append((n, tab["score_bonus"], b"\0" * lay["size"]))
+        sentries.append((n, 0, b"\xff" * lay["size"]))
+    # misaligned readings: the first entries of small case files read with every other candidate layout
+    nmis = 0
+    for c in cases:
+        data = open(c["plain_path"], "rb").read()
+        if not data or len(data) > 8000 or nmis > (150 if quick else 4000):
+            continue
+        for n, b in candidates(tab, lays_ref, lays_ref[c["layout"]]["kind"], len(data)):
+            if n != c["layout"]:
+                sz = lays_ref[n]["size"]
+                for k in range(min(2, len(data) // sz)):
+                    sentries.append((n, b, data[k * sz:(k + 1) * sz]))
+                    nmis += 1
+    stats["score_misaligned_entries"] = nmis
+    tie_render(ctx, tab, rentries, stats, binary_triples, cases)
+    tie_score(ctx, tab, sentries, stats)
+    files, seen = [], set()
+    limit, maxfiles = (2600, 90) if quick else (8000, 800)
+    order = sorted(range(len(cases)), key=lambda i: (cases[i]["ordering"].startswith("tie") is False, i))
+    for i in order:
+        c = cases[i]
+        data = open(c["plain_path"], "rb").read()
+        big_ok = c["ordering"].startswith("tie")          # the corpus tie witness is large: always included
+        if not data or (len(data) > limit and not big_ok) or len(files) >= maxfiles:
+            continue
+        key = (c["layout"], data)
+        if key in seen:
+            continue
+        seen.add(key)
+        files.append((c["plain_path"], lays_ref[c["layout"]]["kind"], data, c["bs_proc"] if c["bs_proc"] >= 64 else 64, "case %d %s %s" % (i, c["layout"], c["ordering"])))
+    r = tie_detect(ctx, tab, lays_ref, files, stats, repeat=2 if quick else 4)
+    stats["detect_order_fixed_in_code"] = bool(tab.get("order_fixed"))
+
+
+def score_function_check(ctx, lays_ref, stats):
+    """C: `the layout score of an entry is a function of the entry's bytes` (otherwise the detected
+    layout is not a function of the file).  One entry per layout with every string field filled to
+    its width, scored repeatedly in one process with other allocations in between."""
+    try:
+        tab = gen_tables()
+    except Exception:
+        return
+    rng = ctx.rng
+    lines, owners = [], []
+    reps = 40
+    for n, lay in lays_ref.items():
+        e = fix_f32(tab, n, U.make_record(lay, 1, (T0, 0), None, "full_all"), rng)
+        for k in range(reps):
+            n2 = rng.choice(sorted(lays_ref))
+            noise = bytes(rng.randrange(1, 256) for _ in range(lays_ref[n2]["size"]))
+            lines.append("%s\t0\t%s" % (n2, noise.hex()))
+            owners.append(None)
+            lines.append("%s\t%d\t%s" % (n, tab["score_bonus"], e.hex()))
+            owners.append((n, e))
+    outl, err = vlib.harness("c08", lines, timeout=300, args=["score"])
+    if outl is None or len(outl) != len(lines):
+        ctx.obligation_broken("correspondence", "harness c08 score run (score function check)", err)
+        return
+    seen = {}
+    for o, w in zip(outl, owners):
+        if w is not None:
+            seen.setdefault(w, set()).add(o)
+    stats["score_function_entries"] = len(seen)
+    stats["score_function_violations"] = 0
+    for (n, e), vals in sorted(seen.items()):
+        if len(vals) > 1:
+            stats["score_function_violations"] += 1
+            open_ = any(it[0] == "cstr" and 0 not in e[it[1]:] for it in tab["score"][n])
+            ctx.failure(dict(layout=n, entry_hex=e.hex(), note="the same %d bytes scored %d times by FixedStruct::score_fixedstruct in one process" % (len(e), reps)),
+                        "one score (the layout score of an entry is a function of its bytes)",
+                        dict(distinct_scores=sorted(vals)),
+                        ["score_reads_past_struct_end"] if open_ else [])
 
 
 def evaluate(ctx, lays_ref, cases, do_b=True):
@@ -391,7 +779,8 @@ def evaluate(ctx, lays_ref, cases, do_b=True):
                                 k = fo // lay["size"]
                                 text = bytes.fromhex(parts[5]).replace(b"\x00", b"").decode("utf-8", "replace").rstrip("\n")
                                 stats["rendered_inprocess"] += 1
-                                if c["recs"][k][1] is None and any(not re.search(pat, text) for _, pat in U.expected_patterns(lay, k, c["recs"][k][0], c.get("strmode"))):
+                                if (c["recs"][k][1] is None and not ss_field_with_newline(lays_ref, c)
+                                        and any(not re.search(pat, text) for _, pat in U.expected_patterns(lay, k, c["recs"][k][0], c.get("strmode")))):
                                     stats["render_mismatch"] += 1
                                     if stats["render_mismatch"] == 1:
                                         ctx.obligation_broken("correspondence", "FixedStruct::as_bytes (in-process) vs the written field values",
@@ -409,7 +798,7 @@ def evaluate(ctx, lays_ref, cases, do_b=True):
                     continue           # reader creation failed on a file of the recorded detection class
                 if impl is None:
                     if c["layout"] in UNREACHABLE or (tok[0] == "OK" and tok[1] != c["layout"]
-                                                      and (lastlog32_read_as_utmp40(c) or utmpx_read_as_freebsd(lays_ref, c))):
+                                                      and (lastlog32_read_as_utmp40(c) or utmpx_read_as_freebsd(lays_ref, c) or layout_score_tie(lays_ref, c))):
                         stats["b_skipped_detection_class"] += 1
                         continue       # covered by the failing-input search (class of a recorded finding)
                     ctx.obligation_broken("correspondence", "FixedStructReader (in-process) vs Model.Records.records_out_K2",
@@ -443,6 +832,8 @@ def evaluate(ctx, lays_ref, cases, do_b=True):
             if stats["harness_decoder_mismatch"]:
                 ctx.obligation_broken("correspondence", "tv_pair of printed entries vs harness-side decoder vs written values",
                                       "%d entries" % stats["harness_decoder_mismatch"])
+    # ---------------- C: the layout score of an entry is a function of its bytes
+    score_function_check(ctx, lays_ref, stats)
     # ---------------- C: the binary vs the spec
     with ThreadPoolExecutor(max_workers=vlib.NCPU) as ex:
         results = list(ex.map(run_binary, cases))
@@ -458,6 +849,27 @@ def evaluate(ctx, lays_ref, cases, do_b=True):
     bad = coq_eval(ctx, "spec", "spec_bad", rows, "spec-evaluation")
     if bad is None:
         bad = {}
+    # ---------------- B: the record text the BINARY printed vs Model.RecordRender.render of that record's bytes
+    if do_b:
+        triples = []
+        for i, (c, (rc, out, err)) in enumerate(zip(cases, results)):
+            fos, problems, nul, nlines, errtxt, wrong_layout = judged[i]
+            if fos is None or problems or wrong_layout or i in bad or len(c["recs"]) > 12 or len(triples) > (260 if ctx.quick() else 4000):
+                continue
+            lay = lays_ref[c["layout"]]
+            chunks = out.split(b"\n\x00")
+            if chunks and chunks[-1] == b"":
+                chunks.pop()
+            if len(chunks) != len(fos):
+                continue
+            data = open(c["plain_path"], "rb").read()
+            for fo, ch in zip(fos, chunks):
+                k = ch.find(b"|:")
+                if k >= 0:
+                    triples.append((c["layout"], data[fo:fo + lay["size"]], ch[k + 2:] + b"\n\x00", i))
+        stats["binary_lines_vs_model"] = len(triples)
+        # ---------------- B: rendering, scoring and layout detection vs their models
+        new_ties(ctx, lays_ref, cases, stats, triples)
     for i, c in enumerate(cases):
         fos, problems, nul, nlines, errtxt, wrong_layout = judged[i]
         exp = [k * lays_ref[c["layout"]]["size"] for k in U.spec_order(c["recs"], c["lo"], c["hi"])]
@@ -471,6 +883,10 @@ def evaluate(ctx, lays_ref, cases, do_b=True):
                 cls.append("netbsd_lastlog_size_multiple_of_40_with_printable_time_bytes")
             if wrong_layout and utmpx_read_as_freebsd(lays_ref, c):
                 cls.append("size_multiple_of_another_layout_with_long_strings")
+            if wrong_layout and layout_score_tie(lays_ref, c):
+                cls.append("layout_score_tie")
+            if ss_field_with_newline(lays_ref, c):
+                cls.append("netbsd_ss_field_with_newline")
             ctx.failure(case_public(c), dict(record_offsets_in_order=exp, note="Coq spec_records; python rendering shown"),
                         dict(record_offsets_in_order=fos, problems=problems[:5], stderr=errtxt), cls)
         elif nul:
@@ -547,7 +963,9 @@ def run(ctx):
         "an entry whose bytes are all 0xFF is invalid: it is not a record (nothing is printed for it) and every other record is still printed once in time order; rule implemented in the model: it takes part in the ordering under the time value its bytes decode to and is dropped when it would be sent (records_sent), tied by run B including the position of the Err in the walk",
         "a C-string field holds exactly its bytes up to the first NUL or up to its width, whichever comes first",
         "time values are in-domain: seconds in 2023..2024 (inside the plausibility range the scorer expects), microseconds in [0, 999999]",
-        "layout detection (score_file over a HashMap) is exercised, not modelled: a mis-detected file shows up as a failing input",
+        "layout detection is modelled (Model.LayoutDetect) and compared in-process on every generated file of at most a few KB; reads of the scoring that leave the struct (CStr::from_ptr on an unterminated last string) are outside what the model can predict and are not compared (counted: score_overread_not_compared, detect_overread_not_compared)",
+        "format!(\"{}\", f32) is a parameter of the rendering model; compared entries carry integer-valued f32 below 2^24 in ac_etime",
+        "the sockaddr field of the NetBSD i386 layouts is generated with printable bytes (and with a newline byte for the recorded finding's class)",
         "decoders of .gz/.xz/.tar are exercised, not modelled (C05)",
     ]
     return ctx.finish()
@@ -561,12 +979,14 @@ def replay(ctx, path):
     cases = []
     for f in r.get("failures", []):
         c = f["case"]
+        if "recs" not in c:          # a failure of the score-function check: it is re-run by evaluate() as a whole
+            continue
         c["recs"] = [((t[0], t[1]), nk) for t, nk in c["recs"]]
         c["lo"] = tuple(c["lo"]) if c["lo"] else None
         c["hi"] = tuple(c["hi"]) if c["hi"] else None
         c.setdefault("strmode", "normal")
         cases.append(c)
-    if not cases:
+    if not cases and not r.get("failures"):
         print("nothing to replay (obligation replay: run ./check C08)")
         return 0
     evaluate(ctx, lays_ref, cases, do_b=False)
